@@ -12,6 +12,7 @@ import (
 	"log/slog"
 	"net"
 	"strconv"
+	"sync/atomic"
 	"testing"
 	"time"
 
@@ -26,7 +27,9 @@ import (
 	"verif/internal/vt"
 )
 
-var recCap = ev.New("c11/pool-cap", "rapid: a real IPClient with NTS exchanges keys with the harness's key-exchange server (8 cookies, or 9..16 for three cases in seven) and then talks to a harness NTS server that authenticates properly but answers the first request with 0..14 cookies instead of the one asked for; every later request is answered without any cookie, so that the number of further successful exchanges before the client has to exchange keys again is the size its pool had. Oracle: that size is at most 8 (and 7 plus the cookies delivered, if that is less). One evaluation = one history. Non-trivial: more than one cookie delivered; distinct by the count")
+var sameCookie atomic.Bool
+
+var recCap = ev.New("c11/pool-cap", "rapid: a real IPClient with NTS exchanges keys with the harness's key-exchange server (8 cookies, or 9..16 for three cases in seven), loses 0..3 exchanges (so that its pool has free slots) and then talks to a harness NTS server that authenticates properly but answers the first request with 0..14 cookies instead of the one asked for; every later request is answered without any cookie, so that the number of further successful exchanges before the client has to exchange keys again is the size its pool had. Oracle: that size is at most 8 (and 7 plus the distinct cookies delivered, if that is less; in some cases the server delivers one cookie several times); no cookie appears in two of the requests seen. One evaluation = one history. Non-trivial: more than one cookie delivered; distinct by the count")
 
 func TestPropPoolCap(t *testing.T) {
 	addr := netlab.UDPAddr(netlab.Addr(6), 12414)
@@ -54,7 +57,11 @@ func TestPropPoolCap(t *testing.T) {
 			sesMu.Unlock()
 			var cookies [][]byte
 			for i := 0; i < n; i++ {
-				cookies = append(cookies, bytes.Repeat([]byte{byte(0x40 + i), byte(ex.Seq)}, 62))
+				ck := bytes.Repeat([]byte{byte(0x40 + i), byte(ex.Seq)}, 62)
+				if sameCookie.Load() {
+					ck = bytes.Repeat([]byte{0x7e, byte(ex.Seq)}, 62) // a server that hands out the same cookie n times
+				}
+				cookies = append(cookies, ck)
 			}
 			// sealed by the harness (own field encoder + miscreant): the reply may carry no cookie at all
 			b := bytes.Clone(hdr[:48])
@@ -76,8 +83,11 @@ func TestPropPoolCap(t *testing.T) {
 			return append(b, extField(0x404, body)...)
 		}
 	}
-	vt.Check(t, 25, 250, func(t *rapid.T) {
+	vt.Check(t, 40, 400, func(t *rapid.T) {
 		n := rapid.SampledFrom([]int{0, 1, 2, 3, 5, 6, 7, 8}).Draw(t, "cookies-in-first-reply")
+		same := n > 1 && rapid.IntRange(0, 3).Draw(t, "same-cookie-n-times") == 0
+		sameCookie.Store(same)
+		defer sameCookie.Store(false)
 		keN := rapid.SampledFrom([]int{8, 8, 8, 9, 10, 12, 16}).Draw(t, "cookies-from-key-exchange")
 		keCookies.Store(int32(keN))
 		defer keCookies.Store(8)
@@ -85,8 +95,9 @@ func TestPropPoolCap(t *testing.T) {
 		c.Auth.Enabled = true
 		c.Auth.NTSKEFetcher = ntske.Fetcher{Log: c.Log, Port: strconv.Itoa(ke.Addr.Port),
 			TLSConfig: tls.Config{NextProtos: []string{"ntske/1"}, InsecureSkipVerify: true, ServerName: ke.Addr.IP.String(), MinVersion: tls.VersionTLS13}}
+		callWithin := 2 * time.Second
 		call := func() error {
-			ctx, cancel := context.WithTimeout(context.Background(), 2*time.Second)
+			ctx, cancel := context.WithTimeout(context.Background(), callWithin)
 			defer cancel()
 			_, _, err := client.MeasureClockOffsetIP(ctx, c.Log, c, laddr, &net.UDPAddr{IP: addr.IP, Port: addr.Port})
 			model.WaitIdle()
@@ -95,13 +106,23 @@ func TestPropPoolCap(t *testing.T) {
 		}
 		model.ClearPlans()
 		model.Take()
-		model.SetDefault(netlab.Plan{Build: sealN(n)})
+		// 0..3 lost exchanges first (the first of them performs the key exchange): the pool has free slots then
+		lost := rapid.IntRange(0, 3).Draw(t, "lost-exchanges-first")
 		conns0 := ke.Conns()
+		model.SetDefault(netlab.Plan{DropRequest: true})
+		callWithin = 150 * time.Millisecond
+		for i := 0; i < lost; i++ {
+			if err := call(); err == nil {
+				t.Fatalf("harness: a dropped request was answered")
+			}
+		}
+		callWithin = 2 * time.Second
+		model.SetDefault(netlab.Plan{Build: sealN(n)})
 		if err := call(); err != nil {
-			t.Fatalf("first exchange (reply with %d cookies) failed: %v", n, err)
+			t.Fatalf("first answered exchange (reply with %d cookies) failed: %v", n, err)
 		}
 		if ke.Conns() != conns0+1 {
-			t.Fatalf("first call performed %d key exchanges", ke.Conns()-conns0)
+			t.Fatalf("the calls up to the first answered one performed %d key exchanges", ke.Conns()-conns0)
 		}
 		model.SetDefault(netlab.Plan{Build: sealN(0)})
 		pool := 0
@@ -116,7 +137,27 @@ func TestPropPoolCap(t *testing.T) {
 			}
 			pool++
 		}
-		want := min(8, min(8, keN)-1+n)
+		// no cookie may have gone out twice, whatever the server handed out
+		seenCk := map[string]int{}
+		for i, ex := range model.Take() {
+			fs, err := walk(ex.Raw)
+			if err != nil {
+				continue
+			}
+			for _, f := range fs {
+				if f.typ == 0x204 {
+					if j, dup := seenCk[string(f.body)]; dup {
+						t.Fatalf("request %d carries the same cookie as request %d (key exchange delivered %d cookies, first reply %d cookies, all the same: %v)", i, j, keN, n, same)
+					}
+					seenCk[string(f.body)] = i
+				}
+			}
+		}
+		want := min(8, min(8, keN)-lost-1+n)
+		if same {
+			want = min(8, min(8, keN)-lost-1+1) // one distinct cookie was delivered
+			recCap.Label("reply-with-the-same-cookie-several-times")
+		}
 		if keN > 8 {
 			recCap.Label("more-than-8-cookies-from-key-exchange")
 		}
@@ -126,6 +167,6 @@ func TestPropPoolCap(t *testing.T) {
 		if pool != want {
 			t.Fatalf("after a reply with %d cookies the pool held %d cookies, expected %d", n, pool, want)
 		}
-		recCap.Eval(n > 1, ev.Hash(n), func() any { return map[string]any{"cookies_in_first_reply": n, "pool_after": pool} })
+		recCap.Eval(n > 1, ev.Hash(n, keN, lost, same), func() any { return map[string]any{"cookies_in_first_reply": n, "cookies_from_key_exchange": keN, "lost_first": lost, "same_cookie": same, "pool_after": pool} })
 	})
 }
